@@ -953,6 +953,61 @@ def rule_r9(rep, program: Program, prop=PROP, rule="R9"):
     return r
 
 
+def rule_r10(rep, program: Program, prop=PROP, rule="R10"):
+    """State-cached values are keyed on state variables only.  A cached method that also reads a
+    system attribute (self.metric) goes stale when that attribute is replaced; whoever replaces it
+    must invalidate the states it goes on using (re-assign the variables the affected entries
+    depend on) before calling system methods on them."""
+    PROP = prop  # noqa: N806
+    r = rep.rule(rule, "after a system attribute read by state-cached methods is replaced (system.metric by the metric adapters), the chain states' dependent cache entries are invalidated before the states are used again", floor=3)
+    # cached methods that (transitively, through self.<method>(state) calls) read self.metric
+    affected: dict[str, set] = {}
+    for k, name, f in cached_pairs(program):
+        seen, todo, reads = set(), [f], False
+        while todo:
+            g = todo.pop()
+            if g.qualname in seen:
+                continue
+            seen.add(g.qualname)
+            for n in ast.walk(g.node):
+                if is_self_attr(n) and n.attr == "metric" and isinstance(n.ctx, ast.Load):
+                    reads = True
+                if isinstance(n, ast.Call) and isinstance(n.func, ast.Attribute) and isinstance(n.func.value, ast.Name) and n.func.value.id == "self":
+                    h = k.resolve(n.func.attr)
+                    if h is not None and h.cache_deps is None:
+                        todo.append(h)
+        if reads:
+            affected.setdefault(f.qualname, set()).update(f.cache_deps or ())
+    dep_vars = set().union(*affected.values()) if affected else set()
+    r.inst({"cached methods reading self.metric": sorted(affected)[:12], "keyed on": sorted(dep_vars)})
+    if not affected:
+        return r
+    # writers of <system>.metric outside constructors
+    for fn in program.all_functions():
+        if fn.name == "__init__":
+            continue
+        stores = [n for n in ast.walk(fn.node) if isinstance(n, ast.Assign) and any(isinstance(t, ast.Attribute) and t.attr == "metric" and not is_self_attr(t) for t in n.targets)]
+        for st in stores:
+            # statements executed after the store in the same function (source order)
+            later = [n for n in ast.walk(fn.node) if isinstance(n, ast.Call) and getattr(n, "lineno", 0) > st.lineno and isinstance(n.func, ast.Attribute) and "system" in norm(n.func.value) and n.args]
+            r.inst({"metric replaced in": fn.qualname, "system calls on states afterwards": [norm(c)[:50] for c in later]})
+            for c in later:
+                # the state argument of the call
+                sargs = [a for a in c.args[:1] if isinstance(a, ast.Name)]
+                for a in sargs:
+                    need = {v for v in dep_vars if v != "mom"}  # the call itself re-assigns / draws the momentum
+                    done = set()
+                    for n in ast.walk(fn.node):
+                        if isinstance(n, ast.Assign) and st.lineno < getattr(n, "lineno", 0) <= c.lineno:
+                            for t in n.targets:
+                                if isinstance(t, ast.Attribute) and isinstance(t.value, ast.Name) and t.value.id == a.id:
+                                    done.add(t.attr)
+                    missing = need - done
+                    if missing:
+                        r.violate(PROP, f"{fn.qualname}:stale-after-metric-change:{a.id}:{sorted(missing)}", f"{fn.qualname} replaces the system's metric and then calls `{norm(c)[:60]}` on `{a.id}` without re-assigning {sorted(missing)}: state-cached quantities that read self.metric but are keyed on {sorted(missing)} only ({', '.join(sorted(affected)[:4])} ...) are still those of the old metric - e.g. the re-sampled momentum of a constrained system is projected with the old Gram matrix and does not lie in the cotangent space of the new metric", node=c, file=fn.file)
+    return r
+
+
 def run(rep, program: Program, tier: str) -> None:
     rep.explanation = (
         "Static effect analysis of the cache protocol: for every concrete System class the "
@@ -984,5 +1039,6 @@ def run(rep, program: Program, tier: str) -> None:
     rule_r7(rep, program)
     rule_r8(rep, program)
     rule_r9(rep, program)
+    rule_r10(rep, program)
     rep.extra["callsites_resolved"] = se.resolved_calls
     rep.extra["callsites_unresolved"] = len(se.unresolved)
